@@ -244,6 +244,8 @@ class Translator:
         m = re.match(r"(?:rkcommon::math::|rkcommon::)?(\w+Ty)$", q)
         if m:
             return "Unit"
+        if q.startswith("std::less<"):
+            return "Unit"   # stateless comparison functor
         rid = self.record_of_type(q)
         if rid is None:
             mm = re.match(r"^(?:typename\s+)?(.+)::(\w+)$", q)
@@ -679,7 +681,7 @@ class Translator:
                     cur = ".".join([root] + path)
                     return root, self.update(root, path, "(%s %s %s)" % (self.translate(d), cur, rhs))
                 return root, self.update(root, path, rhs)
-            if nm in ("operator+=", "operator-=", "operator*=", "operator/=") and r["id"] in self.decls:
+            if nm in ("operator+=", "operator-=", "operator*=", "operator/=", "operator%=") and r["id"] in self.decls:
                 d = self.decls[r["id"]]
                 root, rid, path = self.lvalue_root(e["inner"][1], env)
                 cur = ".".join([root] + path)
@@ -803,7 +805,7 @@ class Translator:
                 return self.lvalue_root(e["inner"][0], env)[0]
             if k == "CXXOperatorCallExpr":
                 r = self.callee_decl(e["inner"][0])
-                if r and r.get("name", "") in ("operator=", "operator+=", "operator-=", "operator*=", "operator/="):
+                if r and r.get("name", "") in ("operator=", "operator+=", "operator-=", "operator*=", "operator/=", "operator%="):
                     return self.lvalue_root(e["inner"][1], env)[0]
             if k == "CXXMemberCallExpr":
                 me = self.strip(e["inner"][0])
@@ -981,7 +983,7 @@ def _lean_build(tr, t, counter):
     return "({ %s } : %s)" % (", ".join(parts), t)
 
 
-def emit_dispatch(tr, namespace, gen_module, cxx_ns="rkcommon::math::vdrv"):
+def emit_dispatch(tr, namespace, gen_module, cxx_ns="rkcommon::math::vdrv", fn_name="vdrv_dispatch"):
     """-> (lean text, c++ text): name-indexed dispatchers over flat scalar argument lists.
     Lean:  dispatch name xs : Option (List (α ⊕ Bool))        C++: bool dispatch(name, const float* xs, n, out)"""
     lean = ["-- GENERATED by tools/cpp2lean.py — flat-argument dispatcher for the driver.",
@@ -989,7 +991,7 @@ def emit_dispatch(tr, namespace, gen_module, cxx_ns="rkcommon::math::vdrv"):
             "def dispatch (name : String) (xs : Array α) : Option (List (α ⊕ Bool)) :=", "  match name with"]
     cxx = ["// GENERATED by tools/cpp2lean.py — flat-argument dispatcher for the harness (same wrappers as the Lean side).",
            "template <typename S, typename EMIT_S, typename EMIT_B>",
-           "static bool vdrv_dispatch(const std::string &name, const std::vector<S> &xs, EMIT_S emitS, EMIT_B emitB) {",
+           "static bool %s(const std::string &name, const std::vector<S> &xs, EMIT_S emitS, EMIT_B emitB) {" % fn_name,
            "  using namespace %s;" % cxx_ns]
     for name, (params, rt) in sorted(tr.signatures.items()):
         counter = [0]
